@@ -104,9 +104,11 @@ func boxFrame(holes int, delta float64) *model3d.Mesh {
 
 func pickGen3(c *hlib.Ctx) mesh3 {
 	org := model3d.XYZ(dy(c, 2, 2), dy(c, 2, 2), dy(c, 2, 2))
-	switch c.Rng.Intn(14) {
+	switch c.Rng.Intn(15) {
 	case 13:
 		return cyclicPrism(c)
+	case 14:
+		return pow2Mesh(c)
 	case 0:
 		return mesh3{tetrahedron(org, float64(1+c.Rng.Intn(3))/2), "tetra", true}
 	case 1:
